@@ -60,9 +60,21 @@ Ltac norm_comm :=
 
 (* split on the next condition; a branch whose conditions are contradictory (with each other or with the invariant) is closed
    at once, so that the tree below it is never explored *)
+(* an in-bounds splice keeps the length (zlen and splice stay opaque during the symbolic execution) *)
+Ltac len_side := repeat first [rewrite zlen_fit | rewrite zlen_slice by lia]; lia.
+Ltac norm_len :=
+  repeat match goal with
+  | |- context [zlen (splice ?l ?a ?d)] => rewrite (zlen_splice l d a) by len_side
+  | H : context [zlen (splice ?l ?a ?d)] |- _ => rewrite (zlen_splice l d a) in H by len_side
+  | |- context [zlen (fit ?n ?o)] => rewrite (zlen_fit n o)
+  | H : context [zlen (fit ?n ?o)] |- _ => rewrite (zlen_fit n o) in H
+  | |- context [zlen (slice ?l ?a ?b)] => rewrite (zlen_slice l a b) by lia
+  | H : context [zlen (slice ?l ?a ?b)] |- _ => rewrite (zlen_slice l a b) in H by lia
+  end.
+
 Ltac gen_sym_core :=
   norm_comm;
-  repeat (once gen_split1; try (exfalso; lia); cbv beta iota zeta; norm_comm);
+  repeat (once gen_split1; try (exfalso; lia); cbv beta iota zeta; norm_len; norm_comm);
   gen_leaf.
 
 (* two for-loops over the same range whose bodies differ syntactically: compare the bodies pointwise *)
@@ -91,6 +103,10 @@ Ltac gen_sym :=
          | w : cw |- _ => destruct w
          | w : tw |- _ => destruct w
          | w : (_ * _)%type |- _ => destruct w
+         end;
+  (* lengths are not negative (zlen stays opaque below) *)
+  repeat match goal with
+         | l : list Z |- _ => lazymatch goal with H : 0 <= zlen l |- _ => fail | _ => pose proof (zlen_nonneg l) end
          end;
   cbv -[Z.add Z.sub Z.mul Z.leb Z.ltb Z.eqb Z.min Z.max Z.modulo Z.div Z.of_nat Z.to_nat Z.le Z.lt
         length firstn skipn app nth repeat usize_max wrap64 zlen slice splice fit andb negb orb
